@@ -16,13 +16,15 @@ CONSTANTS Ids,        \* bundle ids (strings)
 
 VARIABLES idx,     \* [Ids -> [present, pending, frag, parts, expires: "past"|"future"]]
           crashed, \* "" or the id whose operation was killed: the process is down until Reopen
+          orphans, \* <<id, part>> of the files a killed operation left on disk without an index entry (Push writes the file first,
+                   \* Delete removes the entry first): never visible through the API, but the next push of that part finds its file there
           steps, hist
-vars == <<idx, crashed, steps, hist>>
+vars == <<idx, crashed, orphans, steps, hist>>
 
 Absent == [present |-> FALSE, pending |-> FALSE, frag |-> FALSE, parts |-> {}, expires |-> "future"]
 ExpOf(i) == IF i \in ExpiredIds THEN "past" ELSE "future"
 
-Init == idx = [i \in Ids |-> Absent] /\ crashed = "" /\ steps = 0 /\ hist = <<>>
+Init == idx = [i \in Ids |-> Absent] /\ crashed = "" /\ orphans = {} /\ steps = 0 /\ hist = <<>>
 
 Complete(r) == r.present /\ (~r.frag \/ r.parts = Parts)
 Proj(r) == [present |-> r.present, pending |-> r.pending, frag |-> r.frag, parts |-> r.parts, complete |-> Complete(r)]
@@ -45,12 +47,14 @@ Up == crashed = "" /\ steps < MaxSteps
 PushWhole(i) ==
   /\ Up
   /\ idx' = [idx EXCEPT ![i] = PushWholeFn(i, @)]
+  /\ orphans' = orphans \ {<<i, "">>}                      \* the file is written again
   /\ UNCHANGED crashed
   /\ Log([op |-> "push", id |-> i, part |-> "", exp |-> [j \in Ids |-> {Proj(idx'[j])}]])
 
 PushFrag(i, p) ==
   /\ Up
   /\ idx' = [idx EXCEPT ![i] = PushFragFn(i, p, @)]
+  /\ orphans' = orphans \ {<<i, p>>}
   /\ UNCHANGED crashed
   /\ Log([op |-> "push", id |-> i, part |-> p, exp |-> [j \in Ids |-> {Proj(idx'[j])}]])
 
@@ -58,6 +62,7 @@ PushFrag(i, p) ==
 PushBoth(i, p, q) ==
   /\ Up /\ p # q
   /\ idx' = [idx EXCEPT ![i] = PushFragFn(i, q, PushFragFn(i, p, @))]
+  /\ orphans' = orphans \ {<<i, p>>, <<i, q>>}
   /\ UNCHANGED crashed
   /\ Log([op |-> "pushboth", id |-> i, part |-> p, part2 |-> q, exp |-> [j \in Ids |-> {Proj(idx'[j])}]])
 
@@ -66,25 +71,25 @@ PushBoth(i, p, q) ==
 Update(i, pend, ex) ==
   /\ Up
   /\ idx' = IF idx[i].present THEN [idx EXCEPT ![i].pending = pend, ![i].expires = ex] ELSE idx
-  /\ UNCHANGED crashed
+  /\ UNCHANGED <<crashed, orphans>>
   /\ Log([op |-> "update", id |-> i, pending |-> pend, expires |-> ex, exp |-> [j \in Ids |-> {Proj(idx'[j])}]])
 
 Delete(i) ==
   /\ Up
   /\ idx' = [idx EXCEPT ![i] = Absent]
-  /\ UNCHANGED crashed
+  /\ UNCHANGED <<crashed, orphans>>
   /\ Log([op |-> "delete", id |-> i, exp |-> [j \in Ids |-> {Proj(idx'[j])}]])
 
 Sweep ==
   /\ Up
   /\ idx' = [i \in Ids |-> IF idx[i].present /\ idx[i].expires = "past" THEN Absent ELSE idx[i]]
-  /\ UNCHANGED crashed
+  /\ UNCHANGED <<crashed, orphans>>
   /\ Log([op |-> "sweep", exp |-> [j \in Ids |-> {Proj(idx'[j])}]])
 
 Reopen ==
   /\ steps < MaxSteps
   /\ crashed' = ""
-  /\ UNCHANGED idx
+  /\ UNCHANGED <<idx, orphans>>
   /\ Log([op |-> "reopen", exp |-> [j \in Ids |-> {Proj(idx[j])}]])
 
 (* the process is killed inside Push / Delete of id i at crash point `at`; afterwards the operation has taken effect or not *)
@@ -93,6 +98,7 @@ CrashPush(i, p, at, took) ==
   /\ LET after == IF p = "" THEN PushWholeFn(i, idx[i]) ELSE PushFragFn(i, p, idx[i])
      IN /\ after # idx[i]                                    \* only pushes that write something reach a crash point
         /\ idx' = [idx EXCEPT ![i] = IF took THEN after ELSE @]
+        /\ orphans' = IF took THEN orphans \ {<<i, p>>} ELSE orphans \cup {<<i, p>>}     \* the file is there, the entry is not
         /\ crashed' = i
         /\ Log([op |-> "crash-push", id |-> i, part |-> p, at |-> at, took |-> took,
                 exp |-> [j \in Ids |-> IF j = i THEN {Proj(idx[i]), Proj(after)} ELSE {Proj(idx[j])}]])
@@ -100,6 +106,7 @@ CrashPush(i, p, at, took) ==
 CrashDelete(i, at, took) ==
   /\ Up /\ idx[i].present
   /\ idx' = [idx EXCEPT ![i] = IF took THEN Absent ELSE @]
+  /\ orphans' = IF took THEN orphans \cup (IF idx[i].frag THEN {<<i, q>> : q \in idx[i].parts} ELSE {<<i, "">>}) ELSE orphans  \* some of its files may be left
   /\ crashed' = i
   /\ Log([op |-> "crash-delete", id |-> i, at |-> at, took |-> took,
           exp |-> [j \in Ids |-> IF j = i THEN {Proj(idx[i]), Proj(Absent)} ELSE {Proj(idx[j])}]])
@@ -125,6 +132,8 @@ CompleteIffCovered == \A i \in Ids : Complete(idx[i]) <=> (idx[i].present /\ (id
 CrashIsLocal == [][crashed' # "" /\ crashed = "" => \A j \in Ids : j # crashed' => idx'[j] = idx[j]]_vars
 \* closing and reopening is the identity
 ReopenIdentity == [][crashed' = "" /\ crashed # "" => idx' = idx]_vars
-SView == <<idx, crashed, steps>>
+\* a file without an entry belongs to no record the API shows: whatever a crash leaves behind, the map is what the index says
+OrphansUnrecorded == \A o \in orphans : ~idx[o[1]].present \/ (IF o[2] = "" THEN idx[o[1]].frag ELSE (~idx[o[1]].frag \/ o[2] \notin idx[o[1]].parts))
+SView == <<idx, crashed, orphans, steps>>
 Emit == (EmitMode = "final" /\ steps = MaxSteps) => PrintT(<<"TRACE", ToJson(hist)>>)
 =============================================================================
